@@ -561,7 +561,9 @@ def rule_F2_globals(ctx):
         def lv(nn, st):
             if nn[0] == "for" and nn[2] is not None:
                 c = strip(nn[2])
-                if kind(c) == "bin" and kind(strip(c[2])) == "var":
+                # only loops with a *constant* bound take their variable out of the rule: `for (j = 0; j < vs->nusym; j++)`
+                # bounds j by a run-time count that says nothing about the size of a static table indexed with j
+                if kind(c) == "bin" and kind(strip(c[2])) == "var" and is_int(strip(c[3])):
                     loopvars.add(strip(c[2])[1])
             return True
         ast_walk(f.raw.get("ast"), lv)
